@@ -2,6 +2,7 @@ package props
 
 import (
 	"fmt"
+	bo "github.com/benoitkugler/webrender/html/boxes"
 	"os"
 	"strings"
 	"testing"
@@ -75,4 +76,29 @@ func TestDebugBoxes(t *testing.T) {
 	fmt.Println(sb.String())
 	v := c09Check(&C09Case{HTML: doc})
 	fmt.Println(v.Sig, firstLines(v.Msg, 1))
+}
+
+// TestDebugLayout prints position and size of every element box of $VERIF_DOC having an id.
+func TestDebugLayout(t *testing.T) {
+	doc := os.Getenv("VERIF_DOC")
+	if doc == "" {
+		t.Skip("no VERIF_DOC")
+	}
+	r, err := wr.Render(doc, wr.Opts{Engine: "pango", Zoom: 1, TestUA: true})
+	if err != nil {
+		t.Fatal(err)
+	}
+	for pi, p := range r.Pages {
+		wr.WalkBoxes(p, func(b bo.Box) bool {
+			bf := b.Box()
+			if bf.Element != nil {
+				for _, a := range bf.Element.Attr {
+					if a.Key == "id" {
+						fmt.Printf("page %d #%s %s: pos (%v,%v) margins t%v r%v b%v l%v width %v height %v\n", pi, a.Val, b.Type(), bf.PositionX, bf.PositionY, bf.MarginTop, bf.MarginRight, bf.MarginBottom, bf.MarginLeft, bf.Width, bf.Height)
+					}
+				}
+			}
+			return true
+		})
+	}
 }
